@@ -1,11 +1,13 @@
 import MesaModel.Model.LegacyNbhd
 /-
 Agents are ordinary Python objects: a subclass may give them a truth value (`__bool__`, else `__len__() != 0`).
-An agent whose truth value is False still occupies its cell.  The code tells an empty cell from an occupied one by
-comparing the stored object with `default_val()` (`None` resp. `[]`; `Agent` defines no `__eq__`, so an agent is never
-equal to `None`), so `iter_neighbors` / `iter_cell_list_contents` / `is_cell_empty` never consult the truth value:
-`cellsContents` (Model/LegacyNbhd.lean) has no such argument.  The one place that does is `_Grid.agents`
-(`for entry in self: if not entry: continue`), where on a single-occupancy grid the entry is the agent object itself.
+An agent whose truth value is False still occupies its cell.  A reader of the grid has to tell an empty cell from an occupied
+one, and there are two ways to write that test (`EmptyTest`): compare the stored object with the empty value (`!= default_val()`,
+`is None`; `Agent` defines no `__eq__`, so an agent is never equal to `None`) or take its truth value (`if cell`, `if not entry`).
+On a single-occupancy grid the stored object is the agent itself, so the second way loses a falsy agent.  Which way the readers of
+mesa/space.py go is *generated*: `Gen.contentsReadTruth` (`iter_neighbors` / `get_neighbors` / `iter_cell_list_contents` /
+`get_cell_list_contents`) and `Gen.agentsReadTruth` (`_Grid.agents`) are found by probing the four classes with a falsy agent on
+every run; the readers of the model below take the test the table names.
 -/
 namespace Mesa.Legacy
 
@@ -16,9 +18,51 @@ abbrev Falsy := List Aid
 def setTruth (fz : Falsy) (a : Aid) (truthy : Bool) : Falsy :=
   if truthy then fz.filter (fun b => b != a) else if a ∈ fz then fz else a :: fz
 
-/-- `_Grid.agents` as written: `if not entry: continue` skips an empty cell — and, on a SingleGrid / HexSingleGrid, a cell
-    whose occupant is falsy (the entry is the agent); a MultiGrid entry is the cell's list, truthy as soon as it is non-empty -/
-def Grid.agentsListT (g : Grid) (fz : Falsy) : List Aid :=
-  if g.multi then g.agentsList else Grid.dedup ((g.allCells.flatMap g.content).filter fun a => !(fz.contains a))
+/-- how a reader tells an empty cell from an occupied one -/
+inductive EmptyTest where
+  /-- `cell != self.default_val()` / `entry is None` -/
+  | eqDefault
+  /-- `if cell` / `if not entry` -/
+  | truthy
+deriving DecidableEq, Repr
+
+/-- does the test take the stored value for "empty"?  A MultiGrid cell is a list (falsy iff empty, equal to `[]` iff empty); a
+    SingleGrid cell is `None` or the agent object, whose truth value is its own -/
+def cellEmptyBy (t : EmptyTest) (multi : Bool) (fz : Falsy) (cell : List Aid) : Bool :=
+  match t with
+  | .eqDefault => cell.isEmpty
+  | .truthy =>
+    if multi then cell.isEmpty
+    else match cell.head? with
+      | none => true
+      | some a => fz.contains a
+
+/-- `iter_neighbors` / `iter_cell_list_contents` with the emptiness test as a parameter (`cellsContents` of Model/LegacyNbhd.lean
+    is the `eqDefault` instance: `LegacyTruth.cellsContentsBy_eqDefault`) -/
+def cellsContentsBy (t : EmptyTest) (fz : Falsy) (g : Grid) (cells : List Coord) : List Aid :=
+  if g.multi then (cells.filter fun c => !cellEmptyBy t true fz (g.content c)).flatMap g.content
+  else cells.filterMap fun c => if cellEmptyBy t false fz (g.content c) then none else (g.content c).head?
+
+/-- `_Grid.agents` with the emptiness test as a parameter: the entries that are not "empty", flattened into an `AgentSet` -/
+def Grid.agentsBy (t : EmptyTest) (fz : Falsy) (g : Grid) : List Aid :=
+  Grid.dedup ((g.allCells.filter fun c => !cellEmptyBy t g.multi fz (g.content c)).flatMap g.content)
+
+def readerTest (readsTruth : Bool) : EmptyTest := if readsTruth then .truthy else .eqDefault
+
+/-- the test the content readers of the code use (generated) -/
+def contentsTest : EmptyTest := readerTest Gen.contentsReadTruth
+/-- the test `_Grid.agents` uses (generated) -/
+def agentsTest : EmptyTest := readerTest Gen.agentsReadTruth
+
+/-- the readers as the driver calls them -/
+def cellsContentsT (fz : Falsy) (g : Grid) (cells : List Coord) : List Aid := cellsContentsBy contentsTest fz g cells
+
+def hexNeighborsT (fz : Falsy) (g : Grid) (cells : List Coord) : Except Err (List Aid) :=
+  match g.rawCells cells with
+  | .error e => .error e
+  | .ok cs => .ok (cellsContentsT fz g cs)
+
+/-- `grid.agents` -/
+def Grid.agentsListT (g : Grid) (fz : Falsy) : List Aid := g.agentsBy agentsTest fz
 
 end Mesa.Legacy
